@@ -916,10 +916,9 @@ def run(ctx, replay=None):
             gs_terms.append(term)
             gs_meta.append(case)
             if finite_range_collides(build_space(case["spec"])):
-                ctx.h("grid_with_colliding_finite_range_values", "cases")   # product check needs duplicate-free value lists
-            else:
-                prod_terms.append(prod)
-                prod_meta.append(case)
+                ctx.h("grid_with_colliding_finite_range_values", "cases")   # GridSearcher must de-duplicate them
+            prod_terms.append(prod)
+            prod_meta.append(case)
         elif k == "sched":
             viol, n_new, n_init, none_seen = run_sched_case(ctx, case)
             ctx.count(case, nontrivial=n_new > n_init)
